@@ -7,6 +7,7 @@ var All = map[string]*fw.Prop{
 	"C02": C02,
 	"C04": C04,
 	"C05": C05,
+	"C06": C06,
 	"C08": C08,
 	"C14": C14,
 	"C16": C16,
